@@ -1,4 +1,4 @@
-CONSTANT Mode = "both"
+CONSTANT Mode = "structure"
 INIT TraceInit
 NEXT TraceNext
 CONSTRAINT HwmConstraint
